@@ -151,10 +151,10 @@ class C17(Check):
     stub = ["error-estimator answers (keyed draws, identical for all twins)", "clocks", "synthetic seeded data (clusters, samples on grid lines / on the boundary)",
             "size threshold moved through the guarded hook SPARSESPACE_VERIF_DE_THRESHOLD (the only hook in /repo)"]
     rule = ("schedule = data set (10-80 samples, 2-3 dims, on grid lines / boundary, optional class labels), lambda, mass lumping, analytic "
-            "or (rarely, 2-D only) numeric entries, strategy options and benefit answers for 1-4 evaluations of the real dimension-wise loop. "
+            "or (rarely, 2-D only) numeric entries, strategy options and benefit answers for 1-4 (30 %: up to 7) evaluations of the real dimension-wise loop. "
             "Each schedule is executed as twins: reuse off (reference), reuse on; and with the size threshold moved: small-grid "
             "implementation everywhere vs large-grid implementation everywhere (reuse off), plus reuse on with the threshold at 1 (right-hand "
-            "side reuse path on the explored grids). After every evaluation scheme, surpluses per component grid and interpolated densities at "
+            "side reuse path on the explored grids), and reuse on with a threshold inside the range of grid sizes of the history (learnt from the reuse-off twin as the size crossed most often), so that grids cross it in both directions. After every evaluation scheme, surpluses per component grid and interpolated densities at "
             "seeded points are compared. A state is the refined structure with the data/option class; distinct_nontrivial counts distinct "
             "refined structures on which the twins were compared")
     expected_probes = ["twin_compared", "grid_ge_default_threshold", "rebalancing", "new_lmax", "standard_combi_history", "threshold_inside_the_size_range"]
